@@ -122,6 +122,26 @@ func main() {
 		emit(Case{Kind: "cmeq", Code: code, A: []int64{int64(a)}, B: []int64{int64(b)}, Obs: []int64{b2i(cme.Equal(a, b))}})
 		cmo := ord.ContraMap[int, int]{Ord: ord.Int, ContraMap: pure.ContraMap[int, int](proj(code))}
 		emit(Case{Kind: "cmord", Code: code, A: []int64{int64(a)}, B: []int64{int64(b)}, Obs: []int64{int64(cmo.Compare(a, b))}})
+		// the same through a record type that Go cannot compare with == (it has a slice field): ContraMap promises
+		// nothing but the base instance on the projections, for ANY type B; a panic is observed as 99
+		type rec struct {
+			Rank int
+			Tags []string
+		}
+		ra, rb := rec{Rank: a, Tags: []string{"x"}}, rec{Rank: b}
+		cmo2 := ord.ContraMap[int, rec]{Ord: ord.Int, ContraMap: pure.ContraMap[int, rec](func(r rec) int { return proj(code)(r.Rank) })}
+		cme2 := eq.ContraMap[int, rec]{Eq: eq.Int, ContraMap: pure.ContraMap[int, rec](func(r rec) int { return proj(code)(r.Rank) })}
+		obsO, obsE := int64(99), int64(99)
+		func() {
+			defer func() { recover() }()
+			obsO = int64(cmo2.Compare(ra, rb))
+		}()
+		func() {
+			defer func() { recover() }()
+			obsE = b2i(cme2.Equal(ra, rb))
+		}()
+		emit(Case{Kind: "cmord", Code: code, A: []int64{int64(a)}, B: []int64{int64(b)}, Obs: []int64{obsO}})
+		emit(Case{Kind: "cmeq", Code: code, A: []int64{int64(a)}, B: []int64{int64(b)}, Obs: []int64{obsE}})
 		// From wrappers with argument-order-sensitive functions: a == b+code, compare(a, b+code)
 		fe := eq.From[int](func(x, y int) bool { return x == y+int(code) })
 		emit(Case{Kind: "fromeq", Code: code, A: []int64{int64(a)}, B: []int64{int64(b)}, Obs: []int64{b2i(fe.Equal(a, b))}})
